@@ -150,6 +150,29 @@ func runC05(c *Ctx, r *Report) {
 	} else {
 		v := pathOf(dsStore.Val)
 		okLen := strings.HasPrefix(v, "conv<uint32>(call[(*bytes.Buffer).Len")
+		// or the length of the bytes taken from the buffer once every record is in it
+		var bytesCall *ssa.Call
+		if cv, isCv := dsStore.Val.(*ssa.Convert); isCv && !okLen {
+			if lc, isCall := cv.X.(*ssa.Call); isCall {
+				if bi, isB := lc.Common().Value.(*ssa.Builtin); isB && bi.Name() == "len" {
+					if bc, isBC := lc.Common().Args[0].(*ssa.Call); isBC && bc.Common().StaticCallee() != nil && bc.Common().StaticCallee().String() == "(*bytes.Buffer).Bytes" {
+						bytesCall = bc
+						okLen = true
+						for _, ci := range allCalls(enc) {
+							f := ci.Common().StaticCallee()
+							if f == nil {
+								continue
+							}
+							writesBuf := (f.Signature.Recv() != nil && strings.Contains(f.Signature.Recv().Type().String(), ".encoder")) || strings.HasPrefix(f.String(), "(*bytes.Buffer).Write")
+							if writesBuf && !instrDominates(ci, bc) {
+								okLen = false
+							}
+						}
+					}
+				}
+			}
+		}
+		_ = bytesCall
 		r.check(okLen, "C05-R2-ordering", "Encode/DataSize-value", c.pos(dsStore.Pos()), "DataSize = uint32(buf.Len())", "DataSize is set to "+v+", not to the record buffer's length")
 		okOrder := marshal != nil && instrDominates(dsStore, marshal)
 		late := ""
@@ -501,6 +524,15 @@ func c05Sizes(c *Ctx, r *Report) {
 			} else {
 				declWhy = fmt.Sprintf("writeDefMesg size formula not recognised (literal=%v string-branch=%v/%v array-branch=%v written=%v)", okLit, c1, b1, okElse, okW)
 			}
+		}
+	}
+	if !declOK {
+		// the same three cases spelled differently (switch, hoisted base type, op-assignment): read them from
+		// the SSA stores into the fieldDef that is written
+		if ok, why := c05DeclaredSizeSSA(c); ok {
+			declOK, declWhy = true, why
+		} else {
+			declWhy += "; " + why
 		}
 	}
 	if declOK {
